@@ -228,13 +228,21 @@ fn shape_is_neg(text: &str) -> bool {
 // C14: print / parse round trip
 
 pub fn gen_c14(cx: &mut Ctx) {
+    // names that are plain identifiers but start like a reserved word or a digit constant
+    let tricky = ["10", "1a", "0_x", "01", "t1", "f0", "v2", "or_", "and1", "nota", "True1", "falsey", "T-", "_", "9"];
+    for n in tricky.iter() {
+        for e in [lit(n), !lit(n), lit(n) & lit("a"), lit("a") | lit(n), !(lit(n) & lit(n))] {
+            cx.emit("C14", "roundtrip", &[Arg::F(Val::E(e.clone()))], true);
+            cx.emit("C14", "print", &[Arg::F(Val::E(e))], true);
+        }
+    }
     let leaves = vec![lit("a"), lit("x_10"), lit("-"), cst(true), cst(false)];
     for e in trees_up_to(if cx.thorough { 5 } else { 4 }, &leaves, 3, 1) {
         let nt = e.to_string().contains('&') && e.to_string().contains('|');
         cx.emit("C14", "roundtrip", &[Arg::F(Val::E(e.clone()))], nt);
         cx.emit("C14", "print", &[Arg::F(Val::E(e))], nt);
     }
-    let ns = names(&["a", "b", "x_10", "-", "nota", "v1", "T_", "9"]);
+    let ns = names(&["a", "b", "x_10", "-", "nota", "v1", "T_", "9", "10", "1a", "0_x", "t1", "f0", "or_", "and1"]);
     for _ in 0..cx.scale * if cx.thorough { 50000 } else { 4000 } {
         let depth = 2 + cx.rng.below(if cx.thorough { 10 } else { 5 });
         let min_arity = if cx.rng.below(3) == 0 { 1 } else { 2 };
